@@ -349,9 +349,11 @@ class Builder:
         single_at, single_done = None, False
         deleted_tags, yielded = [], []
         guard = 0
+        truncated = False
         while True:
             guard += 1
             if guard > 400:
+                truncated = True    # the plan stops here: what the walk yields afterwards (names only) is not part of the expectation
                 break
             # next yieldable
             while pos < len(recs) and recs[pos].t == G.T_OPT and not (incl and si == 2):
@@ -450,7 +452,7 @@ class Builder:
             out.append(obs)
             k += 1
         op = "W,%s,%d,%s" % (SEC[si], 1 if incl else 0, "/".join(plan + ["*n"]))
-        self.steps.append(Step(op, "walk-" + mode, out, copy.deepcopy(a), None, {"sec": si, "incl": incl, "yields": k}))
+        self.steps.append(Step(op, "walk-" + mode, out, copy.deepcopy(a), None, {"sec": si, "incl": incl, "yields": k, "truncated": truncated}))
 
     def question_walk_op(self, action):
         """Walk the question: 'read' | 'M' | 'X'."""
